@@ -24,6 +24,7 @@ import (
 	"strconv"
 	"strings"
 	"testing"
+	"time"
 
 	"github.com/dlclark/regexp2"
 	"github.com/lestrrat-go/jwx/v2/jws"
@@ -321,6 +322,7 @@ func zRegex(p, s string) (string, string) {
 	if err != nil {
 		return "compileErr", ""
 	}
+	re.MatchTimeout = time.Second // the contract table itself must terminate; a timeout is a run error
 	m, err := re.FindStringMatch(s)
 	if err != nil {
 		return "runErr", ""
@@ -366,6 +368,7 @@ type zRun struct {
 	n     int
 	pd    *PresentationDefinition
 	creds []vc.VerifiableCredential
+	srcs  []zCredSrc
 	names map[string]string // key -> name
 	stats map[string]int
 }
@@ -402,6 +405,7 @@ func (r *zRun) opCase(defRaw string, srcs []zCredSrc) bool {
 	}
 	r.pd = pd
 	r.creds = nil
+	r.srcs = srcs
 	r.names = map[string]string{}
 	strs := map[string]bool{}
 	for i, s := range srcs {
@@ -449,12 +453,26 @@ func zShowMappings(ms []InputDescriptorMappingObject) string {
 	return "[" + strings.Join(parts, ",") + "]"
 }
 
+// zWatchdog runs f; when it has not returned in time the outcome is "<op> hang" (the goroutine is abandoned)
+const zWatchdogTime = 4 * time.Second
+
+func zWatchdog(op string, f func() string) string {
+	done := make(chan string, 1)
+	go func() { done <- f() }()
+	select {
+	case l := <-done:
+		return l
+	case <-time.After(zWatchdogTime):
+		return op + " hang"
+	}
+}
+
 func (r *zRun) opMatch(wallet []int) {
 	vcs := []vc.VerifiableCredential{}
 	for _, i := range wallet {
 		vcs = append(vcs, r.creds[i])
 	}
-	line := func() (line string) {
+	line := zWatchdog("match", func() (line string) {
 		defer func() {
 			if p := recover(); p != nil {
 				line = "match panic:" + zPanicSite(p)
@@ -472,7 +490,7 @@ func (r *zRun) opMatch(wallet []int) {
 			names = append(names, r.credName(c))
 		}
 		return "match ok vcs=[" + strings.Join(names, ",") + "] map=" + zShowMappings(maps)
-	}()
+	})
 	cls := strings.SplitN(line, " ", 3)[1]
 	if strings.HasPrefix(cls, "err:other") {
 		cls = "err:other"
@@ -744,6 +762,28 @@ func (r *zRun) opValidate(envRaw string, sub []zMapping, mut string) {
 		op.Signer = append(op.Signer, serr == nil)
 	}
 	dec.presName = presNames
+	// regexp contract entries for strings that only occur in presentation credentials outside the case's universe
+	extra := map[string]bool{}
+	for _, row := range op.Pres {
+		for _, pc := range row {
+			if pc.Full != nil {
+				zStrings(pc.Full.Tree, extra)
+			}
+		}
+	}
+	if len(extra) > 0 {
+		ss := []string{}
+		for x := range extra {
+			ss = append(ss, x)
+		}
+		sort.Strings(ss)
+		for _, pat := range zPatterns(r.pd) {
+			for _, x := range ss {
+				k, v := zRegex(pat, x)
+				op.Re = append(op.Re, []string{pat, x, k, v})
+			}
+		}
+	}
 	for _, m := range sub {
 		for l := &m; l != nil && l.Nested != nil; l = l.Nested {
 			if strings.HasSuffix(l.Fmt, "_vc") {
@@ -1238,7 +1278,24 @@ func zGenDef(rng *rand.Rand, creds []vc.VerifiableCredential, feat map[string]in
 			d["format"] = zGenFormats(rng)
 			feat["descriptor-format"]++
 		}
-		if rng.Intn(30) > 0 {
+		if !useSR && i > 0 && rng.Intn(5) == 0 {
+			// the same constraints as the previous descriptor (or none): one credential serves both
+			if prev, ok := ds[i-1].(map[string]interface{})["constraints"]; ok && rng.Intn(3) > 0 {
+				// deep copy without field ids (the same id in two descriptors makes ResolveConstraintsFields order dependent)
+				var cp map[string]interface{}
+				pb, _ := json.Marshal(prev)
+				json.Unmarshal(pb, &cp)
+				if fs, ok := cp["fields"].([]interface{}); ok {
+					for _, f := range fs {
+						delete(f.(map[string]interface{}), "id")
+					}
+				}
+				d["constraints"] = cp
+			} else {
+				d["constraints"] = map[string]interface{}{}
+			}
+			feat["descriptor-shares-credential"]++
+		} else if rng.Intn(30) > 0 {
 			var target interface{}
 			var hits []string
 			if len(creds) > 0 && rng.Intn(8) > 0 {
@@ -1445,6 +1502,11 @@ func TestVerifC12(t *testing.T) {
 	}
 	rng := rand.New(rand.NewSource(seed*7919 + 12))
 	for c := 0; c < nCases; c++ {
+		if c%8000 == 4000 {
+			r.hostileRegexCase(36 + rng.Intn(8))
+			r.stats["hostile-regex-case"]++
+			continue
+		}
 		n := 1 + rng.Intn(5)
 		srcs := []zCredSrc{}
 		creds := []vc.VerifiableCredential{}
@@ -1505,6 +1567,9 @@ func (r *zRun) walletFlow(rng *rand.Rand, w []int, n int) {
 	if len(sub) > 0 {
 		cm := [][]interface{}{}
 		for i, m := range sign.Mappings {
+			if i >= len(sign.VerifiableCredentials) {
+				break // fewer credentials than mappings: reported by the oracles on the build/validate lines
+			}
 			for ci := range r.creds {
 				if zKey(r.creds[ci]) == zKey(sign.VerifiableCredentials[i]) {
 					cm = append(cm, []interface{}{m.Id, ci})
@@ -1534,6 +1599,11 @@ func (r *zRun) walletFlow(rng *rand.Rand, w []int, n int) {
 	for _, k := range names[:min(len(names), 4)] {
 		r.opValidate(envRaw, muts[k], k)
 	}
+	// a DIFFERENT credential with the SAME id (a variant / re-issue with other claims) rides along in the presentation:
+	// the honest map must still be accepted, a map pointing at the variant must be rejected
+	if len(sub) > 0 && rng.Intn(3) == 0 {
+		r.variantFlow(rng, sign, sub, jwtVP)
+	}
 	// the same presentation inside an array envelope: mappings need path_nested
 	if rng.Intn(4) == 0 {
 		other := zMakeVP(rng.Intn(2) == 0, nil, true, rng.Intn(1000))
@@ -1558,6 +1628,94 @@ func (r *zRun) walletFlow(rng *rand.Rand, w []int, n int) {
 		}
 		r.opValidate(arr, nested, "array-nested")
 		r.opValidate(arr, sub, "array-flat")
+	}
+}
+
+// zVariant: same id, same format, other claims
+func zVariant(src zCredSrc) (*vc.VerifiableCredential, bool) {
+	tweak := func(subject interface{}) bool {
+		m, ok := subject.(map[string]interface{})
+		if !ok {
+			return false
+		}
+		m["role"] = "admin"
+		m["variant"] = "yes"
+		return true
+	}
+	if src.Holder {
+		return nil, false
+	}
+	var text string
+	if strings.HasPrefix(src.Src, "{") {
+		var doc map[string]interface{}
+		if json.Unmarshal([]byte(src.Src), &doc) != nil || doc["id"] == nil || !tweak(doc["credentialSubject"]) {
+			return nil, false
+		}
+		b, _ := json.Marshal(doc)
+		text = string(b)
+	} else {
+		parts := strings.Split(src.Src, ".")
+		if len(parts) != 3 {
+			return nil, false
+		}
+		raw, err := base64.RawURLEncoding.DecodeString(parts[1])
+		var claims map[string]interface{}
+		if err != nil || json.Unmarshal(raw, &claims) != nil || claims["jti"] == nil {
+			return nil, false
+		}
+		inner, _ := claims["vc"].(map[string]interface{})
+		if inner == nil || !tweak(inner["credentialSubject"]) {
+			return nil, false
+		}
+		text = parts[0] + "." + zB64(claims) + "." + parts[2]
+	}
+	c, err := vc.ParseVerifiableCredential(text)
+	if err != nil {
+		return nil, false
+	}
+	return c, true
+}
+
+func (r *zRun) variantFlow(rng *rand.Rand, sign *SignInstruction, sub []zMapping, jwtVP bool) {
+	if len(sub) != len(sign.VerifiableCredentials) {
+		return
+	}
+	i := rng.Intn(len(sub))
+	var variant *vc.VerifiableCredential
+	for ci := range r.creds {
+		if zKey(r.creds[ci]) == zKey(sign.VerifiableCredentials[i]) {
+			if v, ok := zVariant(r.srcs[ci]); ok {
+				variant = v
+			}
+			break
+		}
+	}
+	if variant == nil || variant.Raw() == sign.VerifiableCredentials[i].Raw() {
+		return
+	}
+	creds := append(append([]vc.VerifiableCredential{}, sign.VerifiableCredentials...), *variant)
+	envRaw := zEnvelopeText([]string{zMakeVP(jwtVP, creds, true, rng.Intn(1000))}, false)
+	honest := append([]zMapping{}, sub...)
+	for k := range honest {
+		honest[k].Path = "$.verifiableCredential[" + strconv.Itoa(k) + "]" // the presentation now holds at least two credentials
+	}
+	r.opValidate(envRaw, honest, "variant-rides-along")
+	forged := append([]zMapping{}, honest...)
+	forged[i].Path = "$.verifiableCredential[" + strconv.Itoa(len(creds)-1) + "]"
+	forged[i].Fmt = variant.Format()
+	r.opValidate(envRaw, forged, "forged-to-same-id-variant")
+}
+
+// hostileRegexCase: a verifier-chosen pattern with catastrophic backtracking on a wallet value; only Match is run, under the watchdog
+func (r *zRun) hostileRegexCase(n int) {
+	name := strings.Repeat("a", n) + "!"
+	doc := map[string]interface{}{"@context": []interface{}{"https://www.w3.org/2018/credentials/v1"}, "id": "did:example:issuer#hostile",
+		"type": []interface{}{"VerifiableCredential", "AlphaCredential"}, "issuer": "did:example:issuer0", "issuanceDate": "2020-01-01T00:00:00Z",
+		"credentialSubject": map[string]interface{}{"id": "did:example:holder0", "name": name}}
+	b, _ := json.Marshal(doc)
+	def := `{"id":"pd","input_descriptors":[{"id":"d1","constraints":{"fields":[{"path":["$.credentialSubject.name"],"filter":{"type":"string","pattern":"^(a+)+$"}}]}}]}`
+	if r.opCase(def, []zCredSrc{{Src: string(b)}}) {
+		r.opMatch([]int{0})
 	}
 }
 
